@@ -15,7 +15,8 @@ contract(
     # what callers (int_arg, num_arg, _make_range, ...) are prepared for: ValueError and LiquidValueError.
     # OverflowError (inf) and TypeError (None, containers) would escape them.
     raises={"LiquidValueError": None, "ValueError": None},
-    post_exc={"ValueError": ["not isinstance(val, int)"], "LiquidValueError": ["isinstance(val, str)"]},   # integers (bool included) always convert
+    # integers (bool included) always convert; so does every string int() accepts (within the digit limit)
+    post_exc={"ValueError": ["not isinstance(val, int)", "not (isinstance(val, str) and is_int_str(val))"], "LiquidValueError": ["isinstance(val, str)"]},
     returns=Int,
 )
 
